@@ -10,22 +10,30 @@ API_OF = {'kevents': 'formatted_kevents', 'traces': 'formatted_traces', 'callsta
           'logs': 'formatted_logs'}
 
 
+def spell(rng, v):
+    """a spelling of v that int(text, 0) accepts (the option type is a "based int")"""
+    t = rng.choice([str(v), hex(v), hex(v).upper().replace('0X', '0x'), '0X%x' % v, oct(v), '0O%o' % v, bin(v), '0B' + bin(v)[2:],
+                    '0x_%x' % v])
+    assert int(t, 0) == v
+    return t
+
+
 def gen_options(rng, cmd, tids, procs, evs):
     """-> (argv without the dump path, API settings, count)"""
     argv, cfg = [cmd], {}
-    if rng.random() < 0.5:
-        t = rng.choice(tids + [99999])
+    if rng.random() < 0.6:
+        t = rng.choice(tids + tids + [99999])
         argv += ['--tid', str(t)]
         cfg['filter_tid'] = t
-    if cmd != 'kevents' and rng.random() < 0.4:
+    if cmd != 'kevents' and rng.random() < 0.5:
         p = rng.choice(procs)
         argv += ['--process', p]
         cfg['filter_process'] = p
     r = rng.random()
-    if r < 0.3:
+    if r < 0.5:
         argv += ['--show-tid']
         cfg['show_tid'] = True
-    elif r < 0.45:
+    elif r < 0.65:
         argv += ['--no-show-tid']
         cfg['show_tid'] = False
     if cmd in ('kevents', 'traces'):
@@ -39,9 +47,9 @@ def gen_options(rng, cmd, tids, procs, evs):
         elif r < 0.55:
             classes, subs = [7, 4], [0x0301]
         for c in classes:
-            argv += [rng.choice(['-cf', '--class-filters']), rng.choice([str(c), hex(c)])]
+            argv += [rng.choice(['-cf', '--class-filters']), spell(rng, c)]
         for s in subs:
-            argv += [rng.choice(['-sf', '--subclass-filters']), rng.choice([str(s), hex(s)])]
+            argv += [rng.choice(['-sf', '--subclass-filters']), spell(rng, s)]
         # the kevents command hands click's tuples to the parser, the traces command makes lists
         cfg['filter_class'] = classes
         cfg['filter_subclass'] = subs
@@ -55,7 +63,7 @@ def gen_options(rng, cmd, tids, procs, evs):
             cfg['color'] = True
     count = None
     if rng.random() < 0.6:
-        count = rng.choice([0, 1, 2, 3, 7, 1000, -1])
+        count = rng.choice([0, 0, 1, 1, 2, 3, 7, 1000, -1])
         argv += [rng.choice(['-c', '--count']), str(count)]
     return argv, cfg, count
 
